@@ -200,6 +200,30 @@ CHECKS = {
         'design_ref': 'DESIGN.md 4 (C20)',
         'note': '1-4 files x 1-5 columns, 1-D and multi-dimensional, item widths 1..16, empty columns, compression on/off',
     },
+    'C11': {
+        'engine': 'E3-arena',
+        'technique': 'fault injection into memory adjacent to arrays: compiled kernels on a poisoned arena with canary '
+                     'guard zones under two fills, NUMBA_BOUNDSCHECK child, and bounds-checked simulated execution of the '
+                     'parallel kernels',
+        'text': 'an out-of-bounds read returns heap contents, so the heap next to every array is made adversarial and the '
+                'run repeated with a second fill: changed canaries (write) or outputs that differ between fills (read) are '
+                'violations; serial kernels are also run under numba bounds checking; parallel kernels (whose internal '
+                'accumulators the arena cannot reach) run from the same source on bounds-checked tracked arrays under '
+                'seeded schedules. Inputs are sampled within each kernel documented preconditions, biased to the listed '
+                'boundary classes.',
+        'design_ref': 'DESIGN.md 4 (C11), Appendix A',
+        'note': 'NFW kernels (numba RNG) not executed; compiled HOD kernels only through the simulated path at the quick tier',
+    },
+    'C19': {
+        'engine': 'E3-arena',
+        'technique': 'complete enumeration of small lengths x flags x dtype pairings of util.cumsum on a poisoned arena with '
+                     'canaries (two fills) and under NUMBA_BOUNDSCHECK; seeded lengths up to 10^4',
+        'text': 'the value clause is a pure function and is enumerated completely for lengths 0..8 (reported as such) and '
+                'sampled beyond; the clause "nothing outside the output array is read or written" is decided by the arena: '
+                'canary zones around input and output, and equality of outputs under two fills.',
+        'design_ref': 'DESIGN.md 4 (C19)',
+        'note': 'an empty Python list cannot be typed by numba (loud rejection) and is outside the sweep',
+    },
 }
 
 NOT_APPLICABLE = {
@@ -210,5 +234,5 @@ NOT_APPLICABLE = {
            'no chunking, interleaving or fault for a simulator to vary',
     'C18': 'pure function on a finite domain of 65340 codes: complete enumeration, which is not simulation',
 }
-for _p in ('C11', 'C19'):
+for _p in ():
     NOT_APPLICABLE.setdefault(_p, PENDING)
